@@ -1,6 +1,7 @@
 import Qryn.LogQL.SameShape
 import Qryn.Proofs.Closed
 import Qryn.Proofs.PlanClosedX
+import Qryn.Proofs.SelParts
 /-! C10, two requests of the same shape: `sameShapeX q1 q2 →` the statements `planLogX c fin q1` and `planLogX c fin q2`
     have the same segment list once the string leaves are emptied — derived from the relation on QUERIES by walking the
     planner, not assumed. With `plan_closed_logx` this gives equal token structure. -/
@@ -102,25 +103,6 @@ theorem EEq_eq {x x' y y' : Expr} (h1 : EEq x x') (h2 : EEq y y') : EEq (eq x y)
 theorem EEq_neq {x x' y y' : Expr} (h1 : EEq x x') (h2 : EEq y y') : EEq (neq x y) (neq x' y') := EEq_logical _ _ _ ⟨h1, h2, trivial⟩
 
 /-! ### SELECT bodies -/
-
-def optPart (kw : String) : Option Expr → List Seg
-  | some p => [.raw (b kw)] ++ segsExpr p
-  | none => []
-def fromPart (f : Option Expr) (joins : List (String × Alias × Expr)) : List Seg :=
-  match f with
-  | some f => [.raw (b " FROM ")] ++ segsExpr f ++ segsJoins joins
-  | none => []
-def listPart (kw : String) (es : List Expr) : List Seg :=
-  if es.isEmpty then [] else [.raw (b kw)] ++ joinS (b ", ") (segsExprs es)
-
-theorem segsSelBody_parts (ws : List (Alias × Sel)) (d : Bool) (cols : List Expr) (f : Option Expr)
-    (j : List (String × Alias × Expr)) (p w : Option Expr) (g : List Expr) (h : Option Expr) (o : List Expr) (l : Option Expr) :
-    segsSelBody (.mk ws d cols f j p w g h o l) =
-      [.raw (b " SELECT " ++ (if d then b " DISTINCT " else []))] ++ joinS (b ", ") (segsExprs cols) ++ fromPart f j ++
-        optPart " PREWHERE " p ++ optPart " WHERE " w ++ listPart " GROUP BY " g ++ optPart " HAVING " h ++
-        listPart " ORDER BY " o ++ optPart " LIMIT " l := by
-  rw [segsSelBody.eq_def]
-  cases f <;> cases p <;> cases w <;> cases h <;> cases l <;> rfl
 
 /-- optional clauses: both absent, or both present and equal up to leaves -/
 def OEq : Option Expr → Option Expr → Prop
